@@ -144,3 +144,32 @@ Proof.
   - destruct H as (post & st' & cs' & Hw' & Hd' & Hfp & Hl & Hrec & Hout). rewrite Hrec.
     cbn [firstn app length Nat.sub]. f_equal. subst rs. apply IHk; try assumption. lia.
 Qed.
+
+(* ---------- the read-half path (receive_message_from_read_half) ---------- *)
+(* on ticks and pass-through frames it does what receive_message does; everything else is an error of that one frame *)
+Theorem half_agrees_on_pass_through cfg st rest :
+  handle_frame_half cfg (pass_through :: rest) = snd (handle_frame cfg st (pass_through :: rest)).
+Proof.
+  rewrite pass_through_eq. cbn [snd handle_frame_half]. change (pass_through =? pass_through) with true. cbv iota.
+  destruct (decode_trailing cfg rest) as [[ctl [|x r]]|]; try reflexivity.
+Qed.
+
+Theorem half_tick cfg : handle_frame_half cfg [] = OContinue.
+Proof. reflexivity. Qed.
+
+Theorem half_other_is_error cfg b0 rest : b0 <> pass_through -> handle_frame_half cfg (b0 :: rest) = OError.
+Proof. intros H. cbn [handle_frame_half]. replace (b0 =? pass_through) with false by (symmetry; now apply N.eqb_neq). reflexivity. Qed.
+
+(* what the peer encoded is what is delivered, on this path too *)
+Theorem half_delivery cfg : d_arms cfg = owned_arms ->
+  forall ctl msg, wf ctl = true -> rt_ok (d_kcmp cfg) (d_kinsert cfg) ctl ->
+  wf msg = true -> rt_ok (d_kcmp cfg) (d_kinsert cfg) msg ->
+  exists bc bm, encode ctl = EOk bc /\ encode msg = EOk bm /\
+    handle_frame_half cfg (pass_through :: bc ++ bm) = to_outcome (norm ctl) (Some (norm msg)) /\
+    handle_frame_half cfg (pass_through :: bc) = to_outcome (norm ctl) None.
+Proof.
+  intros Harms ctl msg Hw1 Ho1 Hw2 Ho2.
+  destruct (pass_through_delivery cfg rstate_init Harms ctl msg Hw1 Ho1 Hw2 Ho2) as (bc & bm & Ec & Em & H1 & H2).
+  exists bc, bm. split; [exact Ec|]. split; [exact Em|].
+  rewrite !(half_agrees_on_pass_through cfg rstate_init), H1, H2. split; reflexivity.
+Qed.
